@@ -67,7 +67,7 @@ func (w *Worker) Mine(ctx context.Context, data []byte, targetScore float64) (ui
 	}()
 
 	// compute the minimum numbers of trailing zeros required to get a PoW score ≥ targetScore
-	targetZeros := uint(math.Ceil(math.Log(float64(len(data)+nonceBytes)*targetScore) / ln3))
+	targetZeros := requiredTrailingZeros(len(data)+nonceBytes, targetScore)
 
 	workerWidth := math.MaxUint64 / uint64(w.numWorkers)
 	for i := 0; i < w.numWorkers; i++ {
@@ -93,6 +93,20 @@ func (w *Worker) Mine(ctx context.Context, data []byte, targetScore float64) (ui
 		return 0, ErrCancelled
 	}
 	return nonce, nil
+}
+
+// requiredTrailingZeros returns the minimum number of trailing zeros z with 3^z / msgLen ≥ targetScore.
+func requiredTrailingZeros(msgLen int, targetScore float64) uint {
+	var zeros uint
+	// the logarithm gives a good first estimate; it is negative for scores below 1 / msgLen
+	if z := math.Ceil(math.Log(float64(msgLen)*targetScore) / ln3); z > 0 {
+		zeros = uint(z)
+	}
+	// the estimate can be off by one due to rounding: assure that the score formula itself is satisfied
+	for zeros <= consts.HashTrinarySize && math.Pow(consts.TrinaryRadix, float64(zeros))/float64(msgLen) < targetScore {
+		zeros++
+	}
+	return zeros
 }
 
 func (w *Worker) worker(powDigest []byte, startNonce uint64, target uint, done *uint32, counter *uint64) (uint64, error) {
